@@ -23,10 +23,13 @@ from pmc.ref import excel as ref
 ID = 'C15'
 RULE = ('product family: all sheet descriptions that differ from the default description in at most L '
         'coordinates (L=2 quick, 3 thorough), each written to an .xlsx file and read back; block family: '
-        'all emptiness patterns of a rows x 4 block for each column quadruple; a case is distinct by its '
+        'all emptiness patterns of a rows x 4 block for each column quadruple; calls family: all histories '
+        'of <= 2 (thorough 3) read_excel calls over 18 one-row sheets without resetting the module in '
+        'between (every other read starts from a re-executed pmutt.io.excel); a case is distinct by its '
         '(headers, cells, comment row, sheet layout) and non-trivial when its set of reader branches '
         '(special setters used, empty cells, padded cells, presets, multi-row ...) differs from the '
-        'default sheet (product) or when a column has an empty cell below a filled one (block)')
+        'default sheet (product), when a column has an empty cell below a filled one (block) or when '
+        'the history has more than one call (calls)')
 ASSUMPTIONS = [
     'cells are numbers, or strings that pandas does not itself read as missing (NA, N/A, NaN, None, null, '
     'empty string ... are "empty" by the reader\'s documented na_values convention and are not used)',
@@ -103,6 +106,9 @@ QUADS_QUICK = ['elements+vib', 'list+dict', 'models+formula']
 QUADS_THOROUGH = list(QUADS)
 BLOCK4_THOROUGH = ['elements+vib', 'list+dict']     # 4 x 4 blocks (2^16 sheets each)
 
+CALL_MASKS = [0b1111, 0b0101, 0b1010]
+CALL_DEPTH = {'quick': 2, 'thorough': 3}
+
 N_PRODUCT_SHARDS = {'quick': 16, 'thorough': 48}
 
 PLANNED_TAGS = (
@@ -115,7 +121,8 @@ PLANNED_TAGS = (
      'row:last-without-cells', 'comment:present', 'comment:absent', 'sheet:default', 'sheet:named',
      'sheet:named-second', 'sheet:decoy-after', 'order:identity', 'order:reversed', 'order:specials-first',
      'order:interleaved', 'order:models-last-reversed', 'block:empty-below-filled',
-     'block:filled-below-empty', 'diff:one-row-sheet']
+     'block:filled-below-empty', 'diff:one-row-sheet', 'calls:depth1', 'calls:depth2',
+     'calls:empty-where-earlier-call-had-a-value']
     + ['preset:' + p for p in PRESET_NAMES]
     + ['%s:%s' % (c, n) for c, ns in sorted(ref.MODE_CLASSES.items()) for n in sorted(ns)]
     + ['%s:EmptyMode' % c for c in sorted(ref.MODE_CLASSES)]
@@ -130,7 +137,11 @@ def bounds(tier):
                 block_rows=3 if tier == 'quick' else '3 (all quadruples) and 4 (%s)' % BLOCK4_THOROUGH,
                 block_patterns='all 2^(rows*4) emptiness patterns per quadruple',
                 rows_per_sheet=[1, 2, 3, 60], vib_wavenumber_repeats=[1, 3, 30],
-                differential='every row of every multi-row sheet is also read alone')
+                call_histories='all sequences of <= %d read_excel calls over %d one-row sheets (6 quadruples x '
+                               'masks %s) in one module state' % (CALL_DEPTH[tier], len(QUADS) * len(CALL_MASKS),
+                                                                  CALL_MASKS),
+                differential='every row of every multi-row sheet is also read alone (60-row sheets '
+                             'with 3 deviations: rows 0-5 and 54-59)')
 
 
 # ---------------------------------------------------------------- enumeration
@@ -168,6 +179,8 @@ def shards(tier):
     for q in (QUADS_QUICK if tier == 'quick' else QUADS_THOROUGH):
         for m in range(16):
             out.append(dict(fam='block', quad=q, rows=3, row0=m))
+    for first in range(len(QUADS) * len(CALL_MASKS)):
+        out.append(dict(fam='calls', first=first, depth=CALL_DEPTH[tier]))
     if tier == 'thorough':
         for q in BLOCK4_THOROUGH:
             for m in range(256):
@@ -387,8 +400,13 @@ def build_product_case(dev):
         sheet = 'Spécies 1'
     elif cfg['sheet'] == 'default-decoy-after':
         decoy = 'after'
+    # rows read alone for the differential oracle: all of them, except for 60-row sheets at
+    # deviation level 3 (first and last six rows; every row is still compared with the reference)
+    diff_rows = 'all'
+    if nrows == 60 and len(dev) >= 3:
+        diff_rows = list(range(6)) + list(range(54, 60))
     return dict(family='product', dev=dict(dev), headers=headers, rows=rows,
-                comment=(cfg['comment'] == 'present'), sheet=sheet, decoy=decoy)
+                comment=(cfg['comment'] == 'present'), sheet=sheet, decoy=decoy, diff_rows=diff_rows)
 
 
 def build_block_case(quad, nrows, mask):
@@ -447,9 +465,21 @@ def write_workbook(case, rows=None):
     return path
 
 
-def read_real(case, sig, rows=None):
+def _reader(fresh):
+    """The real read_excel.  fresh=True re-executes the module pmutt.io.excel first, so that
+    every sheet is read in the module state of a new process: a case then never depends on the
+    sheets the shard read before it (module-level state kept between calls is the business of
+    the 'calls' family, whose cases carry the whole history of calls)."""
+    import importlib
+    import pmutt.io.excel as m
+    if fresh:
+        m = importlib.reload(m)
+    return m.read_excel
+
+
+def read_real(case, sig, rows=None, fresh=True):
     """Write the workbook, read it with the real reader, remove it."""
-    from pmutt.io.excel import read_excel
+    read_excel = _reader(fresh)
     path = write_workbook(case, rows)
     kwargs = {}
     if not case['comment']:
@@ -615,12 +645,16 @@ def _single_row_record(case, row, sig):
     return rec, True
 
 
-def _check(case, ctx, sig):
-    headers, rows = case['headers'], case['rows']
+def _check(sheet, ctx, sig, case=None, fresh=True, differential=True):
+    """Read one sheet and compare it with the reference; `case` is what a violation records
+    (the sheet itself, or the whole history of calls it belongs to)."""
+    if case is None:
+        case = sheet
+    headers, rows = sheet['headers'], sheet['rows']
     exp = ref.expected_records(headers, rows)
-    for t in case_tags(case):
+    for t in case_tags(sheet):
         ctx.tag(t)
-    out = read_real(case, sig)
+    out = read_real(sheet, sig, fresh=fresh)
     ctx.trace()
     ctx.trans(len(ref.data_rows(rows)))                 # one reader step per data row
     ok = ctx.equal('one record per data row', len(out), len(exp), sig, case)
@@ -645,14 +679,17 @@ def _check(case, ctx, sig):
         ok &= ctx.true('no empty cell appears in a record', not bad, s2, case, observed=bad, expected=[])
     # differential row isolation
     data = ref.data_rows(rows)
-    if len(data) > 1:
+    if differential and len(data) > 1:
+        only = sheet.get('diff_rows', 'all')
         for i, row in enumerate(data):
+            if only != 'all' and i not in only:
+                continue
             if all(c is None for c in row):
                 ok &= ctx.true('row without cells gives an empty record', obs[i] == {}, sig, case,
                                observed=obs[i], expected={})
                 continue
-            single, fresh = _single_row_record(case, row, sig)
-            if fresh:
+            single, was_read = _single_row_record(sheet, row, sig)
+            if was_read:
                 ctx.trace()
             ctx.tag('diff:one-row-sheet')
             ctx.evals()
@@ -666,13 +703,34 @@ def _check(case, ctx, sig):
     return ok
 
 
+def _check_calls(case, ctx, sig):
+    """History of read_excel calls in ONE module state: every call must give the reference
+    records of its own sheet, whatever was read before."""
+    ok = True
+    sheets = case['sheets']
+    ctx.tag('calls:depth%d' % len(sheets))
+    for n, sheet in enumerate(sheets):
+        sig['step'] = 'first' if n == 0 else 'later'
+        for prev in sheets[:n]:
+            if prev['headers'] == sheet['headers'] and any(
+                    a is not None and b is None for ra, rb in zip(prev['rows'], sheet['rows'])
+                    for a, b in zip(ra, rb)):
+                ctx.tag('calls:empty-where-earlier-call-had-a-value')
+        ok &= bool(_check(sheet, ctx, sig, case=case, fresh=(n == 0), differential=False))
+        ctx.trans()
+    return ok
+
+
 def check_case(case, ctx):
     """Replay entry point (also used by the explorer): evaluates one explicit sheet."""
     sig = _sig0(case)
     res = {}
 
     def fn(case_, ctx_):
-        res['ok'] = _check(case_, ctx_, sig)
+        if case_['family'] == 'calls':
+            res['ok'] = _check_calls(case_, ctx_, sig)
+        else:
+            res['ok'] = _check(case_, ctx_, sig)
     try:
         done = ctx.run_case(fn, case, sig)
     finally:
@@ -689,6 +747,8 @@ def run_shard(shard, ctx):
     try:
         if shard['fam'] == 'product':
             _run_product(shard, ctx)
+        elif shard['fam'] == 'calls':
+            _run_calls(shard, ctx)
         else:
             _run_block(shard, ctx)
     finally:
@@ -729,11 +789,42 @@ def _run_block(shard, ctx):
             ctx.sample(case, limit=1)
 
 
+def _call_sheets():
+    """Alphabet of the 'calls' family: one-row sheets of every quadruple, full and half filled."""
+    out = []
+    for q in QUADS:
+        for mask in CALL_MASKS:
+            c = build_block_case(q, 1, mask)
+            c['family'] = 'calls-sheet'
+            out.append(c)
+    return out
+
+
+def _run_calls(shard, ctx):
+    """BFS over histories of calls of depth <= shard['depth'] that start with sheet shard['first']."""
+    sheets = _call_sheets()
+    frontier = [[shard['first']]]
+    for depth in range(1, shard['depth'] + 1):
+        nxt = []
+        for hist in frontier:
+            case = dict(family='calls', sheets=[sheets[i] for i in hist])
+            ctx.state(('c', hist))
+            good = check_case(case, ctx)
+            if depth > 1:
+                ctx.nontrivial(('c', hist))
+            if depth == shard['depth']:
+                ctx.sample(case, limit=1)
+            if good and depth < shard['depth']:
+                nxt += [hist + [j] for j in range(len(sheets))]   # a violated history is not extended
+        frontier = nxt
+
+
 LEVEL_TEXT = ('Deviation-bounded product enumeration of worksheet descriptions (19 coordinates: ordinary and '
               'special column groups with their emptiness patterns, column order, cell style, header padding, '
               '1/2/3/60 rows, comment row, sheet layout), complete at 2 (quick) / 3 (thorough) deviations from '
               'the default sheet, plus all 2^12 (thorough also 2^16) emptiness patterns of a rows x 4 block for '
-              'each column quadruple; every sheet is written with openpyxl and read by the real read_excel; '
+              'each column quadruple, plus BFS over histories of 2 (thorough 3) reader calls in one module state; '
+              'every sheet is written with openpyxl and read by the real read_excel; '
               'records compared key by key with a documentation-derived reference and, row by row, with the '
               'one-row sheet holding only that row.')
 LEVEL_NOTE = ('Cell values come from fixed per-column formulas; strings that pandas reads as missing, '
